@@ -288,6 +288,15 @@ def one_history(ctx, kind, factory, route, rng):
                 hist.append(['both', 'values-from-one-shared-array', f'{r1}/{r2}'])
         except Exception:
             pass
+    if rng.random() < 0.4:
+        # one side's variable is assigned, whole, from the other side's live series of the same name (`dup.G = model.G`)
+        common = [k for k in a.__dict__['index'] if k in b.__dict__['index'] and isinstance(k, str) and k.isidentifier() and k not in ('status', 'iterations', 'trace')]
+        if common:
+            nm = rng.choice(common)
+            src, dst = (a, b) if rng.random() < 0.5 else (b, a)
+            how = rng.choice(['attr', 'item', 'replace_values'])
+            r = do({'attr': lambda: setattr(dst, nm, src[nm]), 'item': lambda: dst.__setitem__(nm, src[nm]), 'replace_values': lambda: dst.replace_values(**{nm: src[nm]})}[how])
+            hist.append(['both', f'{"copy" if dst is b else "original"}.{nm} = <the other side\'s series> via {how}', r])
     if not identity_sweep(ctx, a, b, case):
         return
     # mutations after the copy, on either side
